@@ -310,17 +310,20 @@ class DiskFile(VirtualFileContainer):
                 if data_length == 0:
                     data_length = self.calculate_file_length(starting_granule.int, fat, bytes_in_last_sector.int)
 
+                # The postamble of a binary file follows the data in the granule chain, so read it along with the data
+                postamble_length = Postamble().length if preamble.is_ml() else 0
                 file_data, post_pointer = self.read_data(
                     starting_granule.int,
                     fat,
                     preamble=preamble,
-                    data_length=data_length,
+                    data_length=data_length + postamble_length,
                 )
 
                 if preamble.is_ml():
                     postamble = Postamble()
-                    postamble.read(self.buffer, post_pointer)
+                    postamble.read(file_data, data_length)
                     exec_addr = postamble.exec_addr
+                    file_data = file_data[:data_length]
 
                 coco_file = CoCoFile(
                     name=name,
